@@ -120,15 +120,17 @@ def explain(p, q, feats):
 
 
 # ---- library calls ------------------------------------------------------------------------------------
+CALL_LIMIT_S = 20       # a comparison takes ~2 ms; 20 s and then 40 s without an answer is reported as "does not terminate"
+
 
 def lib_eq(a, b):
     from stix2.equivalence.pattern import equivalent_patterns
-    return core.guarded(equivalent_patterns, a, b, stix_version="2.1")
+    return core.guarded_timed(CALL_LIMIT_S, equivalent_patterns, a, b, stix_version="2.1")
 
 
 def lib_find(a, items):
     from stix2.equivalence.pattern import find_equivalent_patterns
-    return core.guarded(lambda: list(find_equivalent_patterns(a, items, stix_version="2.1")))
+    return core.guarded_timed(CALL_LIMIT_S, lambda: list(find_equivalent_patterns(a, items, stix_version="2.1")))
 
 
 class _Crash(Exception):
@@ -282,7 +284,10 @@ def check_case(case, level=0):
                     stats.update(st2)
                 stats["crash"] = True
                 return fails, stats
-        fails.append(("crash:%s@%s" % (name, core.lib_frame(exc)), "%s raised %s" % (c.call, core.fmt_exc(exc))))
+        if isinstance(exc, core.NoAnswer):
+            fails.append(("does-not-terminate", "%s: %s" % (c.call, exc)))
+        else:
+            fails.append(("crash:%s@%s" % (name, core.lib_frame(exc)), "%s raised %s" % (c.call, core.fmt_exc(exc))))
         stats["crash"] = True
     return fails, stats
 
